@@ -48,10 +48,17 @@ fn bad_request(g: &mut Rng, id: &str) -> (Vec<u8>, String) {
         }
         2 => {
             let v = *g.pick(&["HTTP/2.0", "HTTP/3.0"]);
-            (raw(&[format!("GET /v {}", v), "Host: sim".into(), idl], b""), "version_above_1_1".into())
+            // with or without a body: what follows the refused request must be parsed after its body
+            let blen = *g.pick(&[0usize, 0, 5, 1024, 1025, 3000]);
+            if blen == 0 {
+                (raw(&[format!("GET /v {}", v), "Host: sim".into(), idl], b""), "version_above_1_1".into())
+            } else {
+                let body = requestlike_body(blen);
+                (raw(&[format!("POST /v {}", v), "Host: sim".into(), idl, format!("Content-Length: {}", blen)], &body), "version_above_1_1_with_body".into())
+            }
         }
         3 => {
-            let l = g.pick(&["NoColonHere", "Host sim", "garbage line without colon"]).to_string();
+            let l = g.pick(&["NoColonHere", "Host sim", "garbage line without colon", " ", "\t", "   \t "]).to_string();
             let first = g.chance(1, 2);
             let lines = if first {
                 vec!["GET /h HTTP/1.1".to_string(), l, idl]
@@ -194,7 +201,17 @@ fn smuggle_request(g: &mut Rng, id: &str, smuggled_id: &str) -> (Vec<u8>, String
     let inner = Req::get(smuggled_id).bytes();
     let idl = format!("X-Id: {}", id);
     let ws = *g.pick(&[" ", "\t", "  "]);
-    match g.below(6) {
+    match g.below(7) {
+        6 => {
+            // a line of nothing but whitespace (degenerate line folding) before the real blank line
+            let wsline = g.pick(&[" ", "\t", "  ", " \t "]).to_string();
+            let lines = if g.chance(1, 2) {
+                vec!["POST /s HTTP/1.1".to_string(), idl, wsline, format!("Content-Length: {}", inner.len())]
+            } else {
+                vec!["POST /s HTTP/1.1".to_string(), wsline, idl, format!("Content-Length: {}", inner.len())]
+            };
+            (raw(&lines, &inner), "ws_only_line".into())
+        }
         0 => {
             // whitespace before the name (first header line or a later one)
             let name = *g.pick(&["Content-Length", "Transfer-Encoding", "X-Other"]);
